@@ -334,3 +334,16 @@ Proof.
   split; [|split]; [|vm_compute; reflexivity|vm_compute; reflexivity].
   repeat constructor; cbn; intuition discriminate.
 Qed.
+
+(* raw Z_101: a 3x3 determinant (= its Leibniz value 3), a singular one, and a Birkhoff problem with
+   derivative constraints p(1), p'(2), p(3), p''(3) for p = 3 + 5X + 7X^2 + 2X^3, scalar and in the exponent *)
+Example C20_nonvacuous_det_birkhoff :
+  determinant (Zp 101) [[1; 2; 3]; [4; 5; 6]; [0; 1; 1]]%Z = 3%Z /\
+  determinant (Zp 101) [[1; 2; 3]; [2; 4; 6]; [0; 1; 1]]%Z = 0%Z /\
+  (let p := [3; 5; 7; 2]%Z in let K := Zp 101 in
+   let ys := [peval K p 1; peval K (pderiv K p) 2; peval K p 3; peval K (pderiv K (pderiv K p)) 3]%Z in
+   birkhoff_interpolate K (fun x => x) [3; 1; 2; 3]%Z [2; 0; 1; 0]%N [nth 3 ys 0; nth 0 ys 0; nth 1 ys 0; nth 2 ys 0]%Z = Ok p /\
+   birkhoff_interpolate_in_exponent K (self_module K) (fun x => x) [3; 1; 2; 3]%Z [2; 0; 1; 0]%N
+     (map (fun y => (5 * y) mod 101)%Z [nth 3 ys 0; nth 0 ys 0; nth 1 ys 0; nth 2 ys 0]%Z)
+     = Ok (map (fun c => (5 * c) mod 101)%Z p)).
+Proof. vm_compute. repeat split; reflexivity. Qed.
